@@ -217,7 +217,20 @@ fn check_cfg(cfg: &Cfg, pairs: &[(Vec<f64>, Vec<f64>)], st: &mut Stats) {
     let k = cfg.k();
     let agg = if cfg.mul { "mul" } else { "sum" };
     let size = (k * 1000) as u64 + cfg.rates.iter().map(|r| if *r == Rate::Raw { 0 } else { 10 }).sum::<u64>() + if cfg.net == NetRate::Zero { 0 } else { 5 };
+    // weights far below the floor: sums are compared relative to their own size (the usual comparison allows 1e-12 of
+    // absolute slack, ten times the sums in question), and pairs whose terms cancel to within rounding are left out
+    let tiny = cfg.weights.iter().any(|w| *w != 0.0 && w.abs() < 1e-6);
+    let close = |a: f64, b: f64, rel: f64| if tiny { a == b || (a - b).abs() <= 1e-9 * a.abs().max(b.abs()) } else { close(a, b, rel) };
     for (prev, next) in pairs.iter() {
+        if tiny {
+            let delta: Vec<f64> = prev.iter().zip(next.iter()).map(|(a, b)| b - a).collect();
+            let terms: f64 = (0..cfg.k()).map(|i| (cfg.rates[i].apply(delta[i]) * cfg.weights[i]).abs()).sum::<f64>() + (cfg.net.edge() * cfg.weights[0]).abs() + (cfg.net.pair() * cfg.weights[0]).abs();
+            let v = cfg.ref_vehicle(&delta);
+            let near = |x: f64| x != 0.0 && x.abs() < 1e-6 * terms;
+            if near(v) || near(v + cfg.net.edge() * cfg.weights[0]) || near(v + cfg.net.pair() * cfg.weights[0]) {
+                continue;
+            }
+        }
         st.evaluations += 1;
         st.transitions += 3;
         st.traces += 1;
@@ -430,6 +443,14 @@ pub fn run(tier: Tier) -> i32 {
                 let cfg = &cfgs[i as usize];
                 check_cfg(cfg, &pairs, st);
                 check_edge_traversal(cfg, &deltas, st);
+                // the same configuration with its weights scaled far below the floor: a positive sum of 1e-12 is charged as
+                // 1e-12, only sums that are not positive get the floor
+                if !cfg.mul {
+                    for scale in [1e-12, 3e-14] {
+                        let small = Cfg { weights: cfg.weights.iter().map(|w| w * scale).collect(), ..cfg.clone() };
+                        check_cfg(&small, &pairs, st);
+                    }
+                }
                 if i == 7 {
                     st.sample(2, || json!({"cfg": cfg, "state_pairs": pairs.len(), "delta_pairs": deltas.len()}));
                 }
@@ -477,7 +498,7 @@ pub fn run(tier: Tier) -> i32 {
     finish(
         &info,
         total,
-        "state = one cost configuration (1-3 features, weight vector over {-1,0,0.5,1,2} with non-zero sum, rate per feature from 8 mappings incl. nested combined (one feature: every rate term of bounded shape - atoms and Combined lists up to length 2/3 whose elements are atoms or nested Combined lists), network rate from {none, edge lookup, edge-pair lookup, combined, negative edge lookup}, sum/mul); transition = one call of traversal_cost / access_cost / cost_estimate on a (prev,next) state pair from {-2..2}^k, or one forward/reverse EdgeTraversal with synthetic access/traversal models applying chosen deltas; non-trivial = negative weight or non-raw rate",
+        "state = one cost configuration (1-3 features, weight vector over {-1,0,0.5,1,2} with non-zero sum (sum aggregation: also scaled by 1e-12 and 3e-14, far below the floor), rate per feature from 8 mappings incl. nested combined (one feature: every rate term of bounded shape - atoms and Combined lists up to length 2/3 whose elements are atoms or nested Combined lists), network rate from {none, edge lookup, edge-pair lookup, combined, negative edge lookup}, sum/mul); transition = one call of traversal_cost / access_cost / cost_estimate on a (prev,next) state pair from {-2..2}^k, or one forward/reverse EdgeTraversal with synthetic access/traversal models applying chosen deltas; non-trivial = negative weight or non-raw rate",
         true,
         json!({"features": "1..3", "state_values": VALS, "weights": WEIGHTS, "rate_mappings": 8, "network_rates": 5}),
         vec!["reference = closed-form sum over features of weight x rated change + surcharges, floored at 1e-10 (Cost::MIN_COST)".into()],
